@@ -37,6 +37,7 @@ PLAN = {
 
 
 # clauses whose antecedent assumes that unobservable internal steps settled within the harness's pause
+WATCHDOG_CLAUSES = {"usable", "terminates"}
 TIMING_CLAUSES = {"strictGated", "noRetryAfterCancelledWait", "noHoldUp", "usable", "terminates"}   # (the last two rest on the harness's own watchdogs)
 
 
@@ -131,6 +132,7 @@ def collect(pid, tier, seed, d, binp):
             fails3, _, _ = judge_histories(d, "TPBatch", hist2, pid, shards=2)
             rep = {(f[0], c) for f in fails3 if f[1] == pid for c in f[2]}
             reproduced = rep if reproduced is None else (reproduced & rep)
+            reproduced_once = rep if settle == 20 else (reproduced_once | rep)
         for scn_id, prop, clauses in fails:
             if prop != pid:
                 continue
@@ -138,7 +140,9 @@ def collect(pid, tier, seed, d, binp):
                 raise ToolFailure("history %d failed once but not when re-validated by a fresh TLC run" % scn_id)
             timing = [c for c in clauses if c in TIMING_CLAUSES]
             hard = [c for c in clauses if c not in TIMING_CLAUSES]
-            confirmed = hard + [c for c in timing if (scn_id, c) in reproduced]
+            # (the two clauses that rest on a watchdog - a hang - count when the scenario hangs again in at least one of the three
+            # re-executions: a hang that depends on a race does not come back every time, a scheduling stall hardly ever does)
+            confirmed = hard + [c for c in timing if (scn_id, c) in reproduced or (c in WATCHDOG_CLAUSES and (scn_id, c) in reproduced_once)]
             if not confirmed:
                 stalls += 1
                 continue
